@@ -22,6 +22,10 @@ class VirtualClock:
 
     def _reader(self):
         fr = sys._getframe(2)
+        while fr is not None and fr.f_code.co_filename == __file__:
+            fr = fr.f_back  # skip the aliases above
+        if fr is None:
+            return "?"
         who = fr.f_code.co_name
         slf = fr.f_locals.get("self")
         cls = type(slf).__name__ if slf is not None else "?"
@@ -42,9 +46,37 @@ class VirtualClock:
             self.log(("clk", i, reader, float(self.t)))
         return self.t
 
-    # anything else the code might ask of a time module is a lost seam
+    # the other clocks of the time module read the same virtual time, so a refactoring that
+    # switches to monotonic()/perf_counter() neither crashes nor escapes the simulation
+    def __call__(self):
+        return self.time()
+
+    def monotonic(self):
+        return self.time()
+
+    def perf_counter(self):
+        return self.time()
+
+    def process_time(self):
+        return self.time()
+
+    def time_ns(self):
+        return int(self.time() * 1e9)
+
+    def monotonic_ns(self):
+        return int(self.time() * 1e9)
+
+    def perf_counter_ns(self):
+        return int(self.time() * 1e9)
+
+    def sleep(self, dt):
+        self.t += max(0.0, float(dt))
+
     def __getattr__(self, name):
-        raise AttributeError("VirtualClock: unexpected clock API %r (seam lost?)" % name)
+        # formatting helpers etc. come from the real module
+        import time as _real
+
+        return getattr(_real, name)
 
 
 def is_timer_limit_read(reader):
